@@ -838,6 +838,161 @@ func (s *service) getValidators(txes ...dbft.Transaction[util.Uint256]) []dbft.P
 		if !blockStage {
 			return nil
 		}""")])]),
+ # batch 9: variants for the rules of round 9
+ ("r10-removestale-own-hash-local", ["C08", "C07"], "RemoveStale: the transaction's own hash through a local",
+  [("pkg/core/mempool/mem_pool.go", [("""				mp.conflicts[hash] = append(mp.conflicts[hash], itm.txn.Hash())""", """				own := itm.txn.Hash()
+				mp.conflicts[hash] = append(mp.conflicts[hash], own)""")])]),
+ ("r10-newsubtrie-child-local", ["C11", "C10"], "putBatchIntoExtensionNoPrefix: the old child through a local",
+  [("pkg/core/mpt/batch.go", [("""		b.Children[key[0]] = t.newSubTrie(key[1:], next, false)""", """		oldChild := next
+		b.Children[key[0]] = t.newSubTrie(key[1:], oldChild, false)""")])]),
+ ("r10-boltseekgc-keep-first", ["C09", "C02"], "BoltDBStore.SeekGC: the keep answer handled by an early return",
+  [("pkg/core/storage/boltdb_store.go", [("""		keep, cont := keepCont(k, v)
+		if !keep {
+			if err := c.Delete(); err != nil {
+				return false, err
+			}
+		}
+		return cont, nil""", """		keep, cont := keepCont(k, v)
+		if keep {
+			return cont, nil
+		}
+		if err := c.Delete(); err != nil {
+			return false, err
+		}
+		return cont, nil""")])]),
+ ("r10-performseek-clone-locals", ["C09"], "performSeek: the clones bound to locals first",
+  [("pkg/core/storage/memcached_store.go", [("""		kvPs := KeyValue{
+			Key:   bytes.Clone(k),
+			Value: bytes.Clone(v),
+		}""", """		ownKey, ownValue := bytes.Clone(k), bytes.Clone(v)
+		kvPs := KeyValue{
+			Key:   ownKey,
+			Value: ownValue,
+		}""")])]),
+ ("r10-samewitness-two-steps", ["C06", "C07", "C19"], "sameWitness: the two scripts compared in two statements",
+  [("pkg/core/blockchain.go", [("""	return bytes.Equal(a.InvocationScript, b.InvocationScript) && bytes.Equal(a.VerificationScript, b.VerificationScript)""", """	if !bytes.Equal(a.InvocationScript, b.InvocationScript) {
+		return false
+	}
+	return bytes.Equal(a.VerificationScript, b.VerificationScript)""")])]),
+ ("r10-signers-unique-by-set", ["C06", "C07", "C17"], "Transaction.isValid: signer uniqueness by a set",
+  [("pkg/core/transaction/transaction.go", [("""	for i := range t.Signers {
+		for j := i + 1; j < len(t.Signers); j++ {
+			if t.Signers[i].Account.Equals(t.Signers[j].Account) {
+				return ErrNonUniqueSigners
+			}
+		}
+	}""", """	seenSigners := make(map[util.Uint160]struct{}, len(t.Signers))
+	for i := range t.Signers {
+		if _, dup := seenSigners[t.Signers[i].Account]; dup {
+			return ErrNonUniqueSigners
+		}
+		seenSigners[t.Signers[i].Account] = struct{}{}
+	}""")])]),
+ ("r10-verifyproof-range-value", ["C03", "C10"], "VerifyProof: the loop over the elements themselves",
+  [("pkg/core/mpt/proof.go", [("""	for i := range proofs {
+		h := hash.DoubleSha256(proofs[i])
+		tr.Store.Put(makeStorageKey(h), proofs[i])
+	}""", """	for _, nodeBytes := range proofs {
+		tr.Store.Put(makeStorageKey(hash.DoubleSha256(nodeBytes)), nodeBytes)
+	}""")])]),
+ ("r10-addstateroot-compare-local", ["C03"], "AddStateRoot: the comparison bound to a local",
+  [("pkg/core/stateroot/store.go", [("""	if !local.Root.Equals(sr.Root) {
+		return fmt.Errorf("%w at block %d: %v vs %v", ErrStateMismatch, sr.Index, local.Root, sr.Root)
+	}""", """	sameRoot := local.Root.Equals(sr.Root)
+	if !sameRoot {
+		return fmt.Errorf("%w at block %d: %v vs %v", ErrStateMismatch, sr.Index, local.Root, sr.Root)
+	}""")])]),
+ ("r10-callinternal-manifest-inverted", ["C16", "C04"], "callInternal: the hardfork test inverted",
+  [("pkg/core/interop/contract/call.go", [("""		if ic.IsHardforkEnabled(config.HFDomovoi) {
+			mfst = ctx.GetManifest()
+		} else {
+			curr, err := ic.GetContract(ic.VM.GetCurrentScriptHash())
+			if err == nil {
+				mfst = &curr.Manifest
+			}
+		}""", """		if !ic.IsHardforkEnabled(config.HFDomovoi) {
+			curr, err := ic.GetContract(ic.VM.GetCurrentScriptHash())
+			if err == nil {
+				mfst = &curr.Manifest
+			}
+		} else {
+			mfst = ctx.GetManifest()
+		}""")])]),
+ ("r10-loadtoken-flags-local", ["C16"], "LoadToken: the token's flags through a local",
+  [("pkg/core/interop/contract/call.go", [("""	return callInternal(ic, cs, md, tok.CallFlag, tok.HasReturn, args, false)""", """	requested := tok.CallFlag
+	return callInternal(ic, cs, md, requested, tok.HasReturn, args, false)""")])]),
+ ("r10-trieget-clone-local", ["C10", "C03"], "Trie.Get: the copy bound to a local",
+  [("pkg/core/mpt/trie.go", [("""	return bytes.Clone(leaf.(*LeafNode).value), nil
+}
+
+// getWithPath""", """	own := bytes.Clone(leaf.(*LeafNode).value)
+	return own, nil
+}
+
+// getWithPath""")])]),
+ ("r10-deletefrombranch-rename", ["C10", "C11"], "deleteFromBranch: the remembered hash and bytes renamed",
+  [("pkg/core/mpt/trie.go", [("""	h := b.Hash()
+	bs := b.bytes
+	r, err := t.deleteFromNode(b.Children[i], path)
+	if err != nil {
+		return nil, err
+	}
+	t.removeRef(h, bs)""", """	oldHash := b.Hash()
+	oldBytes := b.bytes
+	r, err := t.deleteFromNode(b.Children[i], path)
+	if err != nil {
+		return nil, err
+	}
+	t.removeRef(oldHash, oldBytes)""")])]),
+ ("r10-serialize-reset-loop", ["C17", "C01"], "SerializationContext.Serialize: the map emptied by a delete loop",
+  [("pkg/vm/stackitem/serialization.go", [("""	clear(w.seen)
+	err := w.serialize(item)""", """	for it := range w.seen {
+		delete(w.seen, it)
+	}
+	err := w.serialize(item)""")])]),
+ ("r10-header-decode-hash-inline", ["C17", "C06"], "Header.decodeHashableFields: the hash computed inline",
+  [("pkg/core/block/header.go", [("""	if br.Err == nil {
+		b.createHash()
+	}
+}
+
+// MarshalJSON""", """	if br.Err == nil {
+		buf := io.NewBufBinWriter()
+		b.encodeHashableFields(buf.BinWriter)
+		b.hash = hash.Sha256(buf.Bytes())
+	}
+}
+
+// MarshalJSON""")])]),
+ ("r10-reset-noop-nested", ["C02"], "resetStateInternal: the nothing-to-do test as two nested tests",
+  [("pkg/core/blockchain.go", [("""		if height == currHeight && hHeight == currHeight {
+			bc.log.Info("chain is at the proper state", zap.Uint32("height", height))
+			return nil
+		}""", """		if height == currHeight {
+			if hHeight == currHeight {
+				bc.log.Info("chain is at the proper state", zap.Uint32("height", height))
+				return nil
+			}
+		}""")])]),
+ ("r10-neo-updatecache-rename", ["C01", "C19"], "NEO.updateCache: the sorted prefix renamed",
+  [("pkg/core/native/native_neo.go", [("""	nextVals := committee[:n.cfg.GetNumOfCNs(blockHeight+1)].Copy()
+	slices.SortFunc(nextVals, (*keys.PublicKey).Cmp)
+	cache.nextValidators = nextVals
+	return nil""", """	byKey := committee[:n.cfg.GetNumOfCNs(blockHeight+1)].Copy()
+	slices.SortFunc(byKey, (*keys.PublicKey).Cmp)
+	cache.nextValidators = byKey
+	return nil""")])]),
+ ("r10-boltget-found-first", ["C01", "C09"], "BoltDBStore.Get: the found case returns first",
+  [("pkg/core/storage/boltdb_store.go", [("""	if val == nil {
+		err = ErrKeyNotFound
+	}
+	return
+}""", """	if val != nil {
+		return
+	}
+	err = ErrKeyNotFound
+	return
+}""")])]),
 ]
 
 out = "/verif/benign"
